@@ -190,6 +190,9 @@ func (s metaShape) build() ([]byte, int) {
 	pin(in, cnt, byte(len(s.propSizes)))
 	for i, e := range ents {
 		pin(in, e+38, byte(s.propSizes[i]>>8), byte(s.propSizes[i]))
+		if len(ents) > 3 {
+			pin(in, e+32, 3) // many entries: the entry type is pinned (3 feasible values each would multiply)
+		}
 	}
 	return in, n
 }
